@@ -180,6 +180,10 @@ def gen_program(rng, cid):
             prog.append(("set", b"\x03" + sql.encode(), ml, sql))
         if rng.random() < 0.15:
             prog.append(("query", b"\x03SELECT '\xc3\xa9'", None, None))
+        if rng.random() < 0.2:
+            # listings with no rows or a NULL value: what they are made of must not leak into anybody's later listing
+            prog.append(("query", rng.choice([b"\x03SHOW STATUS", b"\x03SHOW VARIABLES LIKE 'no_such_variable'", b"\x03SHOW VARIABLES LIKE 'sql_select_limit'",
+                                               b"\x03SHOW WARNINGS"]), None, None))
         if rng.random() < 0.3:
             # the catalog is the application's answer for THIS connection's user (absolute oracle, see below)
             prog.append(rng.choice([("dbs", b"\x03SHOW DATABASES", None, None), ("tables", b"\x03SELECT table_name FROM information_schema.tables WHERE table_schema <> 'information_schema'", None, None)]))
@@ -344,6 +348,38 @@ def model_step(step, m):
     return m
 
 
+CASES = {}
+
+
+def fresh_solo(prog, caps, user, seed):
+    """the raw output of `prog` run alone on a server in a NEW interpreter (nothing left behind by earlier connections)"""
+    import pickle
+    import subprocess
+    job = pickle.dumps(dict(prog=prog, caps=caps, user=user, seed=seed)).hex()
+    try:
+        r = subprocess.run([sys.executable, os.path.abspath(__file__), "--fresh-solo"], input=job, capture_output=True, text=True, timeout=120)
+        return bytes.fromhex(r.stdout.strip().splitlines()[-1])
+    except (subprocess.SubprocessError, ValueError, IndexError):
+        return None
+
+
+def fresh_main():
+    import pickle
+    job = pickle.loads(bytes.fromhex(sys.stdin.read().strip()))
+    prog = job["prog"]
+
+    class Quiet:
+        seed = 0
+
+        def fail(self, *a, **k):
+            pass
+
+        def count(self, *a, **k):
+            pass
+    outs, _, _ = asyncio.run(run_interleaved(Quiet(), random.Random(job["seed"]), [prog], [job["caps"]], [job["user"]]))
+    print(bytes(outs[0]).hex())
+
+
 async def case(chk, rng, idx):
     K = rng.choice([2, 2, 3, 4])
     progs = [gen_program(rng, i + 1) for i in range(K)]
@@ -351,6 +387,7 @@ async def case(chk, rng, idx):
     seed_inter = rng.randrange(1 << 30)
     users = ["user%d" % i for i in range(K)]
     outs, oks, uses = await run_interleaved(chk, random.Random(seed_inter), progs, capslist, users)
+    CASES[idx] = (progs, capslist, users, seed_inter, outs)
     desc = dict(case=idx, seed=chk.seed, K=K, schedule_seed=seed_inter,
                 programs=[[(s[0], s[3] if s[0] in ("set", "get", "initdb", "slow", "colname") else (s[2] or "")) for s in p] for p in progs])
     chk.count("K=%d" % K)
@@ -469,6 +506,23 @@ def main():
                 want.append(m)
                 got.append(im)
         chk.compare("every connection's responses in the interleaved run = the model's own transcript for that connection", D, want, got)
+        # failing-input search where model and implementation disagree: the same program alone on a server in a fresh
+        # interpreter -- state that survives in the process from connection to connection cannot hide behind that comparison
+        seen = set()
+        for d_, w_, g_ in zip(D, want, got):
+            if w_ != g_ and isinstance(d_, dict) and (d_.get("case"), d_.get("connection")) not in seen and len(seen) < 6:
+                seen.add((d_["case"], d_["connection"]))
+                progs, capslist, users, seed_inter, outs = CASES[d_["case"]]
+                i = d_["connection"]
+                alone = fresh_solo(progs[i], capslist[i], users[i], seed_inter + 1 + i)
+                chk.count("fresh-process replay")
+                if alone is not None and alone != bytes(outs[i]):
+                    ra, rb = split_responses(outs[i]), split_responses(alone)
+                    k = next((j for j in range(min(len(ra), len(rb))) if ra[j] != rb[j]), min(len(ra), len(rb)))
+                    chk.fail("a connection's responses differ from those of the same program run alone on a server in a fresh process",
+                             dict({x: d_[x] for x in ("case", "seed", "K", "schedule_seed", "programs", "connection")}),
+                             dict(first_differing_response=k, here=[p[:24].hex() for _, p in (ra[k] if k < len(ra) else [])][:4],
+                                  fresh=[p[:24].hex() for _, p in (rb[k] if k < len(rb) else [])][:4]))
     asyncio.run(go())
     chk.assumptions = [
         "each connection has its own application session object (the property is about the library, not about an application that shares one object)",
@@ -480,4 +534,7 @@ def main():
 
 
 if __name__ == "__main__":
-    guarded("C08", main)
+    if sys.argv[1:2] == ["--fresh-solo"]:
+        fresh_main()
+    else:
+        guarded("C08", main)
